@@ -317,6 +317,76 @@ def judgeNothing (vals : List F64.Bits) (conf : F64.Bits) (qlo qhi : Nat) (needT
                 ("pct", judgePct i.center i.lo i.hi i.pct), ("needn", needn), ("have", have_)]
     ++ kfTag (classX1 xs) "X1"
 
+/-! ### Student-t coverage of a symmetric interval (integer degrees of freedom), evaluated independently
+
+For ν degrees of freedom and half-width h of the interval mean ± h, T = h·√n/s, θ = atan(T/√ν):
+  ν even:  P(|t| ≤ T) = sin θ · Σ_{j<ν/2} c_j cos^{2j}θ,            c₀ = 1, c_j = c_{j−1}·(2j−1)/(2j)
+  ν odd:   P(|t| ≤ T) = (2/π)·(θ + sin θ cos θ · Σ_{j<(ν−1)/2} d_j cos^{2j}θ),  d₀ = 1, d_j = d_{j−1}·2j/(2j+1)
+(the classical finite sums, Abramowitz–Stegun 26.7.3/26.7.4). sin²θ = T²/(ν+T²) and cos²θ = ν/(ν+T²)
+are exact rationals; the square root, the arctangent and π are evaluated in fixed point with 40
+decimals (integer Newton square root, argument halving + Taylor series), far below the 1e-9
+tolerance of the judge. -/
+
+def fxS : Nat := 10 ^ 40
+/-- π · 10⁴⁰ -/
+def fxPi : Nat := 31415926535897932384626433832795028841971
+
+/-- ⌊√n⌋ by Newton iteration -/
+def isqrt (n : Nat) : Nat :=
+  if n < 2 then n else
+  let rec go (fuel x : Nat) : Nat :=
+    match fuel with
+    | 0 => x
+    | fuel + 1 =>
+      let y := (x + n / x) / 2
+      if y ≥ x then x else go fuel y
+  go 600 (2 ^ ((Nat.log2 n) / 2 + 1))
+
+/-- fixed-point value of a non-negative rational -/
+def fxOfRat (q : Rat) : Nat := (q.num.toNat * fxS) / q.den
+def fxMul (a b : Nat) : Nat := a * b / fxS
+/-- √q in fixed point -/
+def fxSqrtRat (q : Rat) : Nat := isqrt ((q.num.toNat * fxS * fxS) / q.den)
+/-- √(1 + x²) in fixed point -/
+def fxHyp (x : Nat) : Nat := isqrt (fxS * fxS + x * x)
+
+/-- atan x for 0 ≤ x ≤ 1 (fixed point): three argument halvings atan x = 2·atan(x/(1+√(1+x²))),
+then the Taylor series -/
+def fxAtanSmall (x : Nat) : Nat :=
+  let halve (x : Nat) : Nat := x * fxS / (fxS + fxHyp x)
+  let y := halve (halve (halve x))
+  let y2 := fxMul y y
+  -- Σ (−1)^k y^(2k+1)/(2k+1), 30 terms
+  let (sum, _) := (List.range 30).foldl (fun (acc : Int × Nat) k =>
+      let term : Int := (acc.2 / (2 * k + 1) : Nat)
+      ((if k % 2 == 0 then acc.1 + term else acc.1 - term), fxMul acc.2 y2)) ((0 : Int), y)
+  8 * sum.toNat
+
+/-- atan x for x ≥ 0 -/
+def fxAtan (x : Nat) : Nat :=
+  if x ≤ fxS then fxAtanSmall x else fxPi / 2 - fxAtanSmall (fxS * fxS / x)
+
+/-- P(|t_ν| ≤ T) in fixed point, given T² as an exact rational -/
+def tCoverageFx (nu : Nat) (t2 : Rat) : Nat :=
+  if nu == 0 then 0 else
+  let nuq : Rat := ((nu : Nat) : Rat)
+  let sin2 := t2 / (nuq + t2)
+  let cos2 := fxOfRat (nuq / (nuq + t2))
+  if nu % 2 == 0 then
+    let (sum, _, _) := (List.range (nu / 2)).foldl (fun (acc : Nat × Nat × Nat) j =>
+        -- acc = (sum, coefficient c_j · cos^{2j}, unused)
+        let term := if j == 0 then fxS else acc.2.1 * (2 * j - 1) / (2 * j)
+        let term := if j == 0 then term else fxMul term cos2
+        (acc.1 + term, term, 0)) (0, fxS, 0)
+    fxMul (fxSqrtRat sin2) sum
+  else
+    let theta := fxAtan (fxSqrtRat (t2 / nuq))
+    let sc := fxSqrtRat (sin2 * (nuq / (nuq + t2)))
+    let (sum, _, _) := (List.range ((nu - 1) / 2)).foldl (fun (acc : Nat × Nat × Nat) j =>
+        let term := if j == 0 then fxS else fxMul (acc.2.1 * (2 * j) / (2 * j + 1)) cos2
+        (acc.1 + term, term, 0)) (0, fxS, 0)
+    2 * (theta + fxMul sc sum) * fxS / fxPi
+
 /-- tolerance for the running mean m += (x−m)/(i+1): `meanUlps` units in the last place of the
 largest magnitude in the sample -/
 def meanUlps : Nat := 4
@@ -343,8 +413,28 @@ def judgeNormal (vals : List F64.Bits) (conf : F64.Bits) (i : ImplSummary) : Str
   let bracket := okIf ((ev i.lo).le (ev i.center) && (ev i.center).le (ev i.hi)) "centre-outside"
   let confV := okIf (i.conf == conf) "not-the-requested"
   let warn := okIf (!i.warn) "spurious-warning"
+  -- "the mean with its t interval": with h = (Hi − Lo)/2 and the exact sample standard deviation s,
+  -- the Student-t coverage P(|t_{n−1}| ≤ h·√n/s) must be the requested confidence (1e-9), allowing
+  -- for the rounding of the two ends (h ± 2⁻⁵²·max magnitude). Judged on well-conditioned samples
+  -- (s ≥ 2⁻²⁰·max|x|: below that float64 cannot resolve the variance) with finite ends.
+  let tcov := match ev i.lo, ev i.hi, ev conf with
+    | .fin l, .fin h, .fin c =>
+      let var := if n ≥ 2 then variance xs else 0
+      if n < 2 || c ≤ 0 || c ≥ 1 || var ≤ 0 || var * pow2 40 < mx * mx then "ok"
+      else
+        let half := (h - l) / 2
+        let slack := rmax (rabs l) (rabs h) / pow2 52
+        let t2 (hw : Rat) : Rat := if hw ≤ 0 then 0 else hw * hw * ((n : Nat) : Rat) / var
+        let covLo := tCoverageFx (n - 1) (t2 (half - slack))
+        let covHi := tCoverageFx (n - 1) (t2 (half + slack))
+        let cfx := fxOfRat c
+        let tol := fxS / 10 ^ 9
+        if cfx + tol < covLo then "interval-too-wide"
+        else if covHi + tol < cfx then "interval-too-narrow"
+        else "ok"
+    | _, _, _ => "ok"
   showVerdicts [("centre", centre), ("ends", ends), ("bracket", bracket), ("conf", confV), ("warn", warn),
-                ("pct", judgePct i.center i.lo i.hi i.pct)] ++ kfTag (classX2 xs) "X2"
+                ("pct", judgePct i.center i.lo i.hi i.pct), ("tcov", tcov)] ++ kfTag (classX2 xs) "X2"
 
 /-! ### comparisons -/
 
